@@ -100,6 +100,10 @@ pub enum Cmd {
     StartClose,
     StartRetain,
     StartStatus,
+    /// unmanaged: get / remove (mode, remove?)
+    UGet(String, bool),
+    /// unmanaged: add / try_add (object, mode)
+    UAdd(u32, String),
     /// resume from a schedule point; for the retain walk: ids the predicate keeps
     Go(Option<Vec<u32>>),
     Outcome(Outcome),
@@ -119,6 +123,9 @@ pub enum OpResult {
     Unit,
     Retain { retained: usize, removed: Vec<u32> },
     Status { max_size: usize, size: usize, available: usize, waiting: usize },
+    /// unmanaged results
+    UOk(u32),
+    UErr(String),
 }
 impl OpResult {
     /// the name the specification uses for this result (`res[t]`)
@@ -126,6 +133,8 @@ impl OpResult {
         match self {
             OpResult::GetOk { .. } => "ok".into(),
             OpResult::GetErr(v) => v.clone(),
+            OpResult::UOk(_) => "ok".into(),
+            OpResult::UErr(v) => v.clone(),
             OpResult::Cancelled => "cancelled".into(),
             OpResult::Panicked(m) if m == INJECTED => "panic".into(),
             OpResult::Panicked(_) => "unexpected_panic".into(),
@@ -248,18 +257,18 @@ pub struct MgrErr;
 // ---------------------------------------------------------------------------------
 // task-side context (thread local)
 
-struct TaskCtx {
-    ix: usize,
-    cmd_rx: Receiver<Cmd>,
-    rep_tx: Sender<(usize, Report)>,
-    gate_outcome: Cell<Option<Outcome>>,
-    at_gate: Cell<Option<(CallKind, usize)>>,
-    keep: RefCell<Option<Vec<u32>>>,
-    cur_op: Cell<&'static str>,
+pub(crate) struct TaskCtx {
+    pub(crate) ix: usize,
+    pub(crate) cmd_rx: Receiver<Cmd>,
+    pub(crate) rep_tx: Sender<(usize, Report)>,
+    pub(crate) gate_outcome: Cell<Option<Outcome>>,
+    pub(crate) at_gate: Cell<Option<(CallKind, usize)>>,
+    pub(crate) keep: RefCell<Option<Vec<u32>>>,
+    pub(crate) cur_op: Cell<&'static str>,
 }
 
 thread_local! {
-    static CTX: RefCell<Option<Rc<TaskCtx>>> = const { RefCell::new(None) };
+    pub(crate) static CTX: RefCell<Option<Rc<TaskCtx>>> = const { RefCell::new(None) };
 }
 
 fn ctx() -> Option<Rc<TaskCtx>> {
@@ -267,16 +276,16 @@ fn ctx() -> Option<Rc<TaskCtx>> {
 }
 
 impl TaskCtx {
-    fn report(&self, r: Report) {
+    pub(crate) fn report(&self, r: Report) {
         let _ = self.rep_tx.send((self.ix, r));
     }
-    fn recv(&self) -> Cmd {
+    pub(crate) fn recv(&self) -> Cmd {
         self.cmd_rx.recv().unwrap_or(Cmd::Exit)
     }
 }
 
 /// schedule point callback
-fn park_point(site: &'static str) {
+pub(crate) fn park_point(site: &'static str) {
     if let Some(c) = ctx() {
         c.report(Report::AtPoint(site));
         match c.recv() {
@@ -450,7 +459,7 @@ pub type MPool = Pool<Mgr>;
 // ---------------------------------------------------------------------------------
 // task thread
 
-struct FlagWaker(Arc<AtomicBool>);
+pub(crate) struct FlagWaker(pub(crate) Arc<AtomicBool>);
 impl Wake for FlagWaker {
     fn wake(self: Arc<Self>) {
         self.0.store(true, Ordering::SeqCst);
@@ -473,7 +482,7 @@ fn err_name(e: &PoolError<MgrErr>) -> String {
     .into()
 }
 
-fn panic_msg(p: Box<dyn std::any::Any + Send>) -> String {
+pub(crate) fn panic_msg(p: Box<dyn std::any::Any + Send>) -> String {
     if let Some(s) = p.downcast_ref::<&str>() {
         s.to_string()
     } else if let Some(s) = p.downcast_ref::<String>() {
@@ -730,6 +739,8 @@ fn drive(c: &TaskCtx, sh: &Shared, fut: &mut Option<GetFut>, waker: &Waker) {
         return;
     };
     sh.woken[c.ix].store(false, Ordering::SeqCst);
+    // a gate that is still pending re-registers itself during this poll
+    c.at_gate.set(None);
     let mut cx = Context::from_waker(waker);
     let r = catch_unwind(AssertUnwindSafe(|| f.as_mut().poll(&mut cx)));
     match r {
